@@ -23,7 +23,7 @@ func (c *fnCtx) wantMonadic() {
 
 // env says how control leaves the current position
 type env struct {
-	retK   func(tuple string, isErr bool) string // return; nil: not representable here
+	retK   func(tuple string, errSite int) string // return (errSite > 0: a non-nil error); nil: not representable here
 	breakK func() string
 	contK  func() string
 }
@@ -106,7 +106,8 @@ func translateFunc(p *pkgInfo, fd *ast.FuncDecl, t target) string {
 	var c *fnCtx
 	for _, monadic := range []bool{false, true} {
 		c = &fnCtx{p: p, fd: fd, monadic: monadic, names: map[types.Object]string{}, used: map[string]bool{},
-			fieldOf: map[string]string{}, readers: map[types.Object]bool{}, sites: map[ast.Node]int{}}
+			fieldOf: map[string]*fieldVar{}, readers: map[types.Object]bool{}, sites: map[ast.Node]int{},
+			esites: map[ast.Node]int{}, derefs: map[types.Object]bool{}, params: map[types.Object]bool{}}
 		ok := func() (ok bool) {
 			defer func() {
 				if r := recover(); r != nil {
@@ -124,8 +125,19 @@ func translateFunc(p *pkgInfo, fd *ast.FuncDecl, t target) string {
 			break
 		}
 	}
-	done[fobj] = &translated{coqName: coqName, monadic: c.monadic, fuel: c.fuel, recvFlds: c.recvObj != nil}
+	done[fobj] = &translated{coqName: coqName, monadic: c.monadic, fuel: c.fuel, recvFlds: c.recvObj != nil,
+		fields: c.fields, nouts: len(c.outs)}
 	return code
+}
+
+// pointee: t is a pointer to an integer type
+func pointee(t types.Type) (gtype, bool) {
+	pt, ok := t.Underlying().(*types.Pointer)
+	if !ok {
+		return gtype{}, false
+	}
+	g, ok := classify(pt.Elem())
+	return g, ok && g.kind == kInt
 }
 
 func (c *fnCtx) function(coqName string) string {
@@ -134,6 +146,8 @@ func (c *fnCtx) function(coqName string) string {
 		fatal(fd.Pos(), "generic function")
 	}
 	var params []string // "(x : Z)"
+	paramPos := map[types.Object]int{}
+	outType := map[types.Object]gtype{}
 	recvSlot := -1
 	if fd.Recv != nil {
 		f := fd.Recv.List[0]
@@ -146,10 +160,22 @@ func (c *fnCtx) function(coqName string) string {
 			n := c.fresh("recv")
 			if robj != nil {
 				n = c.name(robj)
+				c.params[robj] = true
+				paramPos[robj] = -1
+				outType[robj] = g
 			}
 			params = append(params, fmt.Sprintf("(%s : %s)", n, g.coq()))
+		} else if g, ok := pointee(rt); ok {
+			// a pointer to a named integer: the parameter is the value pointed to, *recv reads and writes it
+			if robj == nil {
+				fatal(f.Pos(), "unnamed pointer receiver")
+			}
+			c.derefs[robj] = true
+			paramPos[robj] = -1
+			outType[robj] = g
+			params = append(params, fmt.Sprintf("(%s : %s)", c.name(robj), g.coq()))
 		} else {
-			// a struct (or pointer to struct) receiver: the integer fields it reads become parameters
+			// a struct (or pointer to struct) receiver: the fields the function uses become parameters
 			u := rt
 			if pt, ok := u.Underlying().(*types.Pointer); ok {
 				u = pt.Elem()
@@ -164,22 +190,38 @@ func (c *fnCtx) function(coqName string) string {
 			recvSlot = len(params)
 		}
 	}
+	pos := 0
 	for _, f := range fd.Type.Params.List {
-		g, ok := classify(info.TypeOf(f.Type))
-		if !ok || g.kind == kErr {
-			fatal(f.Pos(), "parameter type %s is outside the supported subset", info.TypeOf(f.Type))
-		}
+		pt := info.TypeOf(f.Type)
 		if _, variadic := f.Type.(*ast.Ellipsis); variadic {
 			fatal(f.Pos(), "variadic parameter")
 		}
+		g, ok := classify(pt)
+		isPtr := false
+		if !ok {
+			g, isPtr = pointee(pt)
+			ok = isPtr
+		}
+		if !ok || g.kind == kErr {
+			fatal(f.Pos(), "parameter type %s is outside the supported subset", pt)
+		}
 		if len(f.Names) == 0 {
 			params = append(params, fmt.Sprintf("(%s : %s)", c.fresh("arg"), g.coq()))
+			pos++
 		}
 		for _, nm := range f.Names {
 			n := c.fresh("arg")
 			if nm.Name != "_" {
-				n = c.name(info.Defs[nm])
+				obj := info.Defs[nm]
+				n = c.name(obj)
+				c.params[obj] = true
+				paramPos[obj] = pos
+				outType[obj] = g
+				if isPtr {
+					c.derefs[obj] = true
+				}
 			}
+			pos++
 			params = append(params, fmt.Sprintf("(%s : %s)", n, g.coq()))
 		}
 	}
@@ -203,27 +245,31 @@ func (c *fnCtx) function(coqName string) string {
 			c.results = append(c.results, g)
 		}
 	}
-	if len(c.results) == 0 && !c.hasErr {
-		fatal(fd.Pos(), "function without a result")
+	c.findOutputs(paramPos)
+	if len(c.results) == 0 && !c.hasErr && len(c.outs) == 0 {
+		fatal(fd.Pos(), "function without a result that writes nothing through its receiver or parameters")
 	}
-	ev := env{retK: func(tup string, isErr bool) string {
-		if isErr {
-			return "Err 1"
+	ev := env{retK: func(tup string, errSite int) string {
+		if errSite > 0 {
+			return fmt.Sprintf("Err %d", errSite)
 		}
 		if c.monadic {
-			return "Ok " + tup
+			return "Ok " + parenIfNeeded(tup)
 		}
 		return tup
 	}}
 	body := c.stmts(fd.Body.List, ev, func() string {
-		fatal(fd.Body.Rbrace, "control reaches the end of the function body")
-		return ""
+		if len(c.results) > 0 || c.hasErr {
+			fatal(fd.Body.Rbrace, "control reaches the end of the function body")
+		}
+		return ev.retK(tuple(c.namesOf(c.outs)), 0) + "\n"
 	})
 	// receiver fields
 	if c.recvObj != nil {
 		var fp []string
-		for _, n := range c.fields {
-			fp = append(fp, fmt.Sprintf("(%s : Z)", n))
+		for _, f := range c.fields {
+			fp = append(fp, fmt.Sprintf("(%s : %s)", f.name, f.t.coq()))
+			outType[f.obj] = f.t
 		}
 		params = append(params[:recvSlot], append(fp, params[recvSlot:]...)...)
 	}
@@ -234,6 +280,9 @@ func (c *fnCtx) function(coqName string) string {
 	for _, g := range c.results {
 		rts = append(rts, g.coq())
 	}
+	for _, o := range c.outs {
+		rts = append(rts, outType[o].coq())
+	}
 	rt := "unit"
 	if len(rts) == 1 {
 		rt = rts[0]
@@ -241,11 +290,15 @@ func (c *fnCtx) function(coqName string) string {
 		rt = "(" + strings.Join(rts, " * ") + ")"
 	}
 	if c.monadic {
-		rt = "outcome " + rt
+		rt = "outcome " + parenIfNeeded(rt)
 	}
 	var b strings.Builder
-	pos := fset.Position(fd.Pos())
-	fmt.Fprintf(&b, "(* %s/%s: %s *)\n", c.p.dir, shortFile(pos.Filename), signature(fd))
+	fpos := fset.Position(fd.Pos())
+	fmt.Fprintf(&b, "(* %s/%s: %s", c.p.dir, shortFile(fpos.Filename), signature(fd))
+	if len(c.outs) > 0 {
+		fmt.Fprintf(&b, "\n   result: the declared results, then the final value of %s", strings.Join(c.namesOf(c.outs), ", "))
+	}
+	b.WriteString(" *)\n")
 	fmt.Fprintf(&b, "Definition %s", coqName)
 	for _, p := range params {
 		b.WriteString(" " + p)
@@ -323,6 +376,12 @@ func (c *fnCtx) stmts(list []ast.Stmt, ev env, k func() string) string {
 			}
 		}
 		return out.String() + next()
+	case *ast.ExprStmt:
+		code, term := c.exprStmt(s)
+		if term {
+			return code
+		}
+		return code + next()
 	case *ast.AssignStmt:
 		return c.assign(s) + next()
 	case *ast.IncDecStmt:
@@ -408,22 +467,56 @@ func (c *fnCtx) stmts(list []ast.Stmt, ev env, k func() string) string {
 }
 
 func (c *fnCtx) lhsVar(e ast.Expr) types.Object {
-	id, ok := unparen(e).(*ast.Ident)
-	if !ok {
-		fatal(e.Pos(), "assignment to something that is not a local variable (%T)", e)
-	}
-	obj := c.p.info.Defs[id]
+	obj := c.variable(e)
 	if obj == nil {
-		obj = c.p.info.Uses[id]
-	}
-	v, ok := obj.(*types.Var)
-	if !ok || v.Pkg() == nil || v.Parent() == v.Pkg().Scope() || v.IsField() {
-		fatal(e.Pos(), "assignment to %s, which is not a local variable", id.Name)
-	}
-	if obj == c.recvObj || c.readers[obj] {
-		fatal(e.Pos(), "assignment to the receiver or a reader")
+		fatal(e.Pos(), "assignment to something that is not a local variable, *<pointer parameter> or <receiver>.<field> (%T)", e)
 	}
 	return obj
+}
+
+// exprStmt: copy(dst, src), binary.<order>.PutUintN(b, v), panic(x)
+func (c *fnCtx) exprStmt(s *ast.ExprStmt) (code string, terminates bool) {
+	call, ok := unparen(s.X).(*ast.CallExpr)
+	if !ok {
+		fatal(s.Pos(), "expression statement that is not a call")
+	}
+	var pr pre
+	switch {
+	case c.isBuiltin(call.Fun, "panic") && len(call.Args) == 1:
+		c.wantMonadic()
+		c.effects(call.Args[0], &pr)
+		return pr.String() + fmt.Sprintf("Panic %d\n", c.newSite(call)), true
+	case c.isBuiltin(call.Fun, "copy") && len(call.Args) == 2:
+		dst := c.lhsVar(stripFull(call.Args[0]))
+		if k := c.typeOf(stripFull(call.Args[0])).kind; k != kBytes && k != kArr {
+			fatal(s.Pos(), "copy into something that is not a byte slice or array")
+		}
+		if k := c.typeOf(call.Args[1]).kind; k != kBytes && k != kArr {
+			fatal(s.Pos(), "copy from something that is not a byte slice or array")
+		}
+		src := c.expr(call.Args[1], &pr)
+		n := c.name(dst)
+		return pr.String() + letPat([]string{n}, "(go_copy "+n+" "+src+")"), false
+	}
+	if order, name := c.byteOrderCall(call); order != "" {
+		w, ok := map[string]int{"PutUint16": 2, "PutUint32": 4, "PutUint64": 8}[name]
+		if !ok || len(call.Args) != 2 {
+			fatal(s.Pos(), "binary.%s.%s as a statement", order, name)
+		}
+		dst := c.lhsVar(stripFull(call.Args[0]))
+		if c.typeOf(stripFull(call.Args[0])).kind != kBytes {
+			fatal(s.Pos(), "PutUint into something that is not a byte slice")
+		}
+		if t := c.typeOf(call.Args[1]); t.kind != kInt || t.signed || t.bits != 8*w {
+			fatal(s.Pos(), "PutUint of a value of another type")
+		}
+		v := c.expr(call.Args[1], &pr)
+		n := c.name(dst)
+		tmp := c.bindM(&pr, fmt.Sprintf("go_%s_put %d %d %s %s", order, c.newSite(call), w, n, v))
+		return pr.String() + letPat([]string{n}, tmp), false
+	}
+	fatal(s.Pos(), "call statement outside the supported subset (copy, binary.<order>.PutUintN, panic)")
+	return "", false
 }
 
 // pkgCall: e is a call <pkg>.<name>(...) with <pkg> an import of path
@@ -486,6 +579,21 @@ func (c *fnCtx) assign(s *ast.AssignStmt) string {
 	if s.Tok != token.ASSIGN && s.Tok != token.DEFINE {
 		fatal(s.Pos(), "assignment operator %s", s.Tok)
 	}
+	// x[i] = v: the slice/array variable x is rebound to the updated list
+	if ix, ok := unparen(s.Lhs[0]).(*ast.IndexExpr); ok && len(s.Lhs) == 1 && len(s.Rhs) == 1 && s.Tok == token.ASSIGN {
+		base := c.lhsVar(ix.X)
+		if k := c.typeOf(ix.X).kind; k != kBytes && k != kArr {
+			fatal(s.Pos(), "element assignment to something that is not a byte slice or integer array")
+		}
+		if c.typeOf(ix.Index).kind != kInt || c.typeOf(s.Rhs[0]).kind != kInt {
+			fatal(s.Pos(), "element assignment with a non-integer index or value")
+		}
+		n := c.name(base)
+		i := c.expr(ix.Index, &pr)
+		v := c.expr(s.Rhs[0], &pr)
+		tmp := c.bindM(&pr, fmt.Sprintf("go_update %d %s %s %s", c.newSite(ix), n, i, v))
+		return pr.String() + letPat([]string{n}, tmp)
+	}
 	if len(s.Lhs) != len(s.Rhs) {
 		fatal(s.Pos(), "assignment of a multi-valued expression")
 	}
@@ -537,6 +645,56 @@ func (c *fnCtx) isNil(e ast.Expr) bool {
 	return isNil
 }
 
+// errorValue: e is certainly a non-nil error: fmt.Errorf(...), errors.New(...) or a package-level
+// variable initialised by one of them and never assigned
+func (c *fnCtx) errorValue(e ast.Expr, pr *pre) bool {
+	if call := c.pkgCall(e, "fmt", "Errorf"); call != nil {
+		for _, a := range call.Args {
+			c.effects(a, pr)
+		}
+		return true
+	}
+	if call := c.pkgCall(e, "errors", "New"); call != nil {
+		for _, a := range call.Args {
+			c.effects(a, pr)
+		}
+		return true
+	}
+	id, ok := unparen(e).(*ast.Ident)
+	if !ok {
+		return false
+	}
+	v, ok := c.p.info.Uses[id].(*types.Var)
+	if !ok || v.Pkg() != c.p.tpkg || v.Parent() != v.Pkg().Scope() {
+		return false
+	}
+	good := false
+	for _, f := range c.p.files {
+		ast.Inspect(f, func(n ast.Node) bool {
+			switch x := n.(type) {
+			case *ast.ValueSpec:
+				for i, nm := range x.Names {
+					if c.p.info.Defs[nm] == types.Object(v) && len(x.Values) == len(x.Names) {
+						good = c.pkgCall(x.Values[i], "errors", "New") != nil || c.pkgCall(x.Values[i], "fmt", "Errorf") != nil
+					}
+				}
+			case *ast.AssignStmt:
+				for _, l := range x.Lhs {
+					if lid, ok := unparen(l).(*ast.Ident); ok && c.p.info.Uses[lid] == types.Object(v) {
+						fatal(l.Pos(), "error variable %s is assigned: it may be nil", v.Name())
+					}
+				}
+			case *ast.UnaryExpr:
+				if lid, ok := unparen(x.X).(*ast.Ident); ok && x.Op == token.AND && c.p.info.Uses[lid] == types.Object(v) {
+					fatal(x.Pos(), "address of error variable %s taken: it may be changed", v.Name())
+				}
+			}
+			return true
+		})
+	}
+	return good
+}
+
 func (c *fnCtx) ret(s *ast.ReturnStmt, ev env) string {
 	if ev.retK == nil {
 		fatal(s.Pos(), "internal: return in a position where it cannot be represented")
@@ -557,13 +715,14 @@ func (c *fnCtx) ret(s *ast.ReturnStmt, ev env) string {
 		last := s.Results[want-1]
 		switch {
 		case c.isNil(last):
-		case c.pkgCall(last, "fmt", "Errorf") != nil, c.pkgCall(last, "errors", "New") != nil:
-			return pr.String() + ev.retK("", true) + "\n"
+		case c.errorValue(last, &pr):
+			return pr.String() + ev.retK("", c.errSite(s)) + "\n"
 		default:
-			fatal(last.Pos(), "error result that is neither nil nor fmt.Errorf(...)/errors.New(...)")
+			fatal(last.Pos(), "error result that is neither nil nor fmt.Errorf(...)/errors.New(...)/a constant error variable")
 		}
 	}
-	return pr.String() + ev.retK(tuple(vals), false) + "\n"
+	vals = append(vals, c.namesOf(c.outs)...)
+	return pr.String() + ev.retK(tuple(vals), 0) + "\n"
 }
 
 // if err := binary.Read(r, binary.LittleEndian, &x); err != nil { return ..., err }
@@ -646,6 +805,14 @@ func termStmt(s ast.Stmt) bool {
 		return true
 	case *ast.BranchStmt:
 		return s.Tok == token.BREAK || s.Tok == token.CONTINUE
+	case *ast.ExprStmt:
+		// panic(...) (checked to be the builtin when it is transcribed)
+		if call, ok := s.X.(*ast.CallExpr); ok {
+			if id, ok := call.Fun.(*ast.Ident); ok && id.Name == "panic" {
+				return true
+			}
+		}
+		return false
 	case *ast.BlockStmt:
 		return terminates(s.List)
 	case *ast.IfStmt:
@@ -679,9 +846,13 @@ func hasEscape(list []ast.Stmt) bool {
 	found := false
 	for _, s := range list {
 		ast.Inspect(s, func(n ast.Node) bool {
-			switch n.(type) {
+			switch x := n.(type) {
 			case *ast.ReturnStmt, *ast.BranchStmt:
 				found = true
+			case *ast.ExprStmt:
+				if termStmt(x) { // panic(...)
+					found = true
+				}
 			}
 			return !found
 		})
@@ -728,16 +899,28 @@ func (c *fnCtx) assignedOuter(nodes []ast.Node, lo, hi token.Pos) []types.Object
 	seen := map[types.Object]bool{}
 	var objs []types.Object
 	add := func(e ast.Expr) {
-		id, ok := unparen(e).(*ast.Ident)
-		if !ok || id.Name == "_" {
-			return
+		e = unparen(e)
+		if ix, ok := e.(*ast.IndexExpr); ok {
+			e = unparen(ix.X) // x[i] = v rebinds x
 		}
-		obj := c.p.info.Uses[id]
+		e = unparen(stripFull(e))
+		var obj types.Object
+		if id, ok := e.(*ast.Ident); ok {
+			if id.Name == "_" {
+				return
+			}
+			obj = c.p.info.Uses[id]
+			if obj == nil {
+				obj = c.p.info.Defs[id]
+			}
+			v, ok := obj.(*types.Var)
+			if !ok || v.Pkg() == nil || v.Parent() == v.Pkg().Scope() || c.derefs[obj] {
+				return
+			}
+		} else {
+			obj = c.variable(e)
+		}
 		if obj == nil {
-			obj = c.p.info.Defs[id]
-		}
-		v, ok := obj.(*types.Var)
-		if !ok || v.Pkg() == nil || v.Parent() == v.Pkg().Scope() {
 			return
 		}
 		if obj.Pos() >= lo && obj.Pos() <= hi {
@@ -778,11 +961,17 @@ func (c *fnCtx) assignedOuter(nodes []ast.Node, lo, hi token.Pos) []types.Object
 				if call := c.pkgCall(x, "encoding/binary", "Read"); call != nil && len(call.Args) > 0 {
 					add(call.Args[0])
 				}
+				// copy(dst, ..) and binary.<order>.PutUintN(dst, ..) write dst
+				if len(x.Args) > 0 {
+					if order, _ := c.byteOrderCall(x); order != "" || c.isBuiltin(x.Fun, "copy") {
+						add(x.Args[0])
+					}
+				}
 			}
 			return true
 		})
 	}
-	sort.Slice(objs, func(i, j int) bool { return objs[i].Pos() < objs[j].Pos() })
+	sort.SliceStable(objs, func(i, j int) bool { return objs[i].Pos() < objs[j].Pos() })
 	return objs
 }
 
@@ -942,8 +1131,20 @@ func (c *fnCtx) switchStmt(s *ast.SwitchStmt, rest []ast.Stmt, ev env, k func() 
 
 // loop emits a loop over items (a Coq list, item bound by itemPat) or, when items == "", a fuel
 // loop whose body starts with the test cond
-func (c *fnCtx) loop(node ast.Stmt, items, itemPat string, cond ast.Expr, body []ast.Stmt, rest []ast.Stmt, ev env, k func() string) string {
-	state := c.namesOf(c.assignedOuter(stmtNodes(body), node.Pos(), node.End()))
+func (c *fnCtx) loop(node ast.Stmt, blk *ast.BlockStmt, items, itemPat string, cond ast.Expr, post ast.Stmt, rest []ast.Stmt, ev env, k func() string) string {
+	body := blk.List
+	nodes := stmtNodes(body)
+	if post != nil {
+		nodes = append(nodes, post)
+	}
+	// the state of the loop: what the body (and the post statement) assign among the variables declared
+	// outside the body
+	state := c.namesOf(c.assignedOuter(nodes, blk.Pos(), blk.End()))
+	for _, n := range state {
+		if n == itemPat {
+			fatal(node.Pos(), "the loop variable %s is assigned in the body", n)
+		}
+	}
 	withRet := hasReturn(body)
 	simple := items != "" && !c.monadic && !withRet && !hasBreak(body)
 	ctl := func(s string) string {
@@ -953,14 +1154,19 @@ func (c *fnCtx) loop(node ast.Stmt, items, itemPat string, cond ast.Expr, body [
 		return s + "\n"
 	}
 	inner := env{
-		retK: func(tup string, isErr bool) string {
-			if isErr {
-				return "Err 1"
+		retK: func(tup string, errSite int) string {
+			if errSite > 0 {
+				return fmt.Sprintf("Err %d", errSite)
 			}
 			return strings.TrimRight(ctl("Ret "+parenIfNeeded(tup)), "\n")
 		},
 		breakK: func() string { return ctl("Break " + parenIfNeeded(tuple(state))) },
 		contK:  func() string { return ctl("Next " + parenIfNeeded(tuple(state))) },
+	}
+	if post != nil {
+		// continue and the end of the body run the post statement first
+		next := inner.contK
+		inner.contK = func() string { return c.stmts([]ast.Stmt{post}, env{}, next) }
 	}
 	if simple {
 		inner = env{contK: func() string { return tuple(state) + "\n" }}
@@ -969,7 +1175,17 @@ func (c *fnCtx) loop(node ast.Stmt, items, itemPat string, cond ast.Expr, body [
 		fatal(node.Pos(), "internal: loop with a return in a joined branch")
 	}
 	bodyCode := c.stmts(body, inner, inner.contK)
-	after := c.stmts(rest, ev, k)
+	var after string
+	if items == "" && cond == nil && !hasBreak(body) {
+		// for { .. } without break is left only by return: nothing follows it
+		if len(rest) > 0 {
+			fatal(rest[0].Pos(), "unreachable code after a for{} without break")
+		}
+		c.wantMonadic()
+		after = "Fuel (* not reached: the loop has no break *)\n"
+	} else {
+		after = c.stmts(rest, ev, k)
+	}
 	if simple {
 		if len(state) == 0 {
 			return after // a loop without effect
@@ -979,7 +1195,7 @@ func (c *fnCtx) loop(node ast.Stmt, items, itemPat string, cond ast.Expr, body [
 	}
 	retArm := "match go_r : Empty_set with end"
 	if withRet {
-		retArm = ev.retK("go_r", false)
+		retArm = ev.retK("go_r", 0)
 	}
 	arms := fmt.Sprintf("| %s =>\n%s\n| inr go_r => %s\nend\n", inlPat(state), indent(strings.TrimRight(after, "\n")), retArm)
 	if items == "" {
@@ -1046,45 +1262,63 @@ func (c *fnCtx) rangeLoop(s *ast.RangeStmt, rest []ast.Stmt, ev env, k func() st
 	default:
 		items, pat = x, "_"
 	}
-	return pr.String() + c.loop(s, items, pat, nil, s.Body.List, rest, ev, k)
+	return pr.String() + c.loop(s, s.Body, items, pat, nil, nil, rest, ev, k)
 }
 
 func (c *fnCtx) forLoop(s *ast.ForStmt, rest []ast.Stmt, ev env, k func() string) string {
 	if s.Init == nil && s.Post == nil {
-		return c.loop(s, "", "", s.Cond, s.Body.List, rest, ev, k)
+		return c.loop(s, s.Body, "", "", s.Cond, nil, rest, ev, k)
 	}
-	// for i := a; i < n; i += k { body }, i not assigned in the body, n a length
-	bad := func(why string) {
-		fatal(s.Pos(), "for loop outside the supported shapes (for cond {..}, for {..}, for i := a; i < len; i += k {..}): %s", why)
+	if items, counter, ok := c.counted(s); ok {
+		return c.loop(s, s.Body, items, counter, nil, nil, rest, ev, k)
 	}
-	init, ok := s.Init.(*ast.AssignStmt)
-	if !ok || init.Tok != token.DEFINE || len(init.Lhs) != 1 || len(init.Rhs) != 1 {
-		bad("init is not i := a")
+	// the general three-clause loop: init; for cond { body; post } on fuel (continue runs post)
+	switch s.Post.(type) {
+	case nil, *ast.IncDecStmt, *ast.AssignStmt:
+	default:
+		fatal(s.Post.Pos(), "post statement of shape %T", s.Post)
 	}
-	iid, ok := init.Lhs[0].(*ast.Ident)
-	if !ok {
-		bad("init is not i := a")
+	loop := func() string { return c.loop(s, s.Body, "", "", s.Cond, s.Post, rest, ev, k) }
+	if s.Init == nil {
+		return loop()
+	}
+	return c.stmts([]ast.Stmt{s.Init}, env{}, loop)
+}
+
+// counted: for i := a; i < n; i += k { body } with i not assigned in the body, k a positive constant
+// and n a length (so that i cannot overflow): the loop is a fold over the values of i
+func (c *fnCtx) counted(s *ast.ForStmt) (items, counter string, ok bool) {
+	init, isAssign := s.Init.(*ast.AssignStmt)
+	if !isAssign || init.Tok != token.DEFINE || len(init.Lhs) != 1 || len(init.Rhs) != 1 {
+		return
+	}
+	iid, isId := init.Lhs[0].(*ast.Ident)
+	if !isId {
+		return
 	}
 	iobj := c.p.info.Defs[iid]
-	if iobj == nil || c.typeOf(iid).kind != kInt {
-		bad("counter is not a new integer variable")
+	if iobj == nil {
+		return
 	}
-	cond, ok := unparen(s.Cond).(*ast.BinaryExpr)
-	if !ok || cond.Op != token.LSS {
-		bad("condition is not i < n")
+	if g, known := classify(iobj.Type()); !known || g.kind != kInt {
+		return
 	}
-	if id, ok := unparen(cond.X).(*ast.Ident); !ok || c.p.info.Uses[id] != iobj {
-		bad("condition is not i < n")
+	cond, isBin := unparen(s.Cond).(*ast.BinaryExpr)
+	if !isBin || cond.Op != token.LSS {
+		return
+	}
+	if id, isId := unparen(cond.X).(*ast.Ident); !isId || c.p.info.Uses[id] != iobj {
+		return
 	}
 	step := ""
 	switch p := s.Post.(type) {
 	case *ast.IncDecStmt:
-		if id, ok := p.X.(*ast.Ident); ok && c.p.info.Uses[id] == iobj && p.Tok == token.INC {
+		if id, isId := p.X.(*ast.Ident); isId && c.p.info.Uses[id] == iobj && p.Tok == token.INC {
 			step = "1"
 		}
 	case *ast.AssignStmt:
 		if p.Tok == token.ADD_ASSIGN && len(p.Lhs) == 1 && len(p.Rhs) == 1 {
-			if id, ok := p.Lhs[0].(*ast.Ident); ok && c.p.info.Uses[id] == iobj {
+			if id, isId := p.Lhs[0].(*ast.Ident); isId && c.p.info.Uses[id] == iobj {
 				if v := c.constOf(p.Rhs[0]); v != nil && constant.Sign(constant.ToInt(v)) > 0 {
 					step = constString(v, p.Pos())
 				}
@@ -1092,24 +1326,23 @@ func (c *fnCtx) forLoop(s *ast.ForStmt, rest []ast.Stmt, ev env, k func() string
 		}
 	}
 	if step == "" {
-		bad("post statement is not i++ / i += positive constant")
+		return
 	}
 	for _, o := range c.assignedOuter(stmtNodes(s.Body.List), s.Body.Pos(), s.Body.End()) {
 		if o == iobj {
-			bad("the counter is assigned in the body")
+			return
 		}
 	}
 	if !c.isLength(cond.Y, s) {
-		bad("the bound is not len(x) or a variable holding len(x) that is assigned once")
+		return
 	}
 	var pr pre
 	a := c.expr(init.Rhs[0], &pr)
 	n := c.expr(cond.Y, &pr)
 	if len(pr.lines) > 0 {
-		bad("start or bound with a run-time check")
+		return
 	}
-	items := fmt.Sprintf("(go_iota %s %s %s)", a, n, step)
-	return c.loop(s, items, c.name(iobj), nil, s.Body.List, rest, ev, k)
+	return fmt.Sprintf("(go_iota %s %s %s)", a, n, step), c.name(iobj), true
 }
 
 // isLength: e is len(x), or a local variable whose only assignment in the function is := len(x)
